@@ -87,6 +87,7 @@ def run_case(case, ctx):
     total_nodes = len(ref.preorder())
     fog = HexaryTrieFog()
     cache = TrieFrontierCache()
+    kept = {}
     met = []
     visits = 0
     step = 0
@@ -123,7 +124,13 @@ def run_case(case, ctx):
             else:
                 res = r
         if not via_cache:
-            if case.get("root_via") == "traverse_from":
+            if case.get("root_via") == "kept_root":
+                # the walker keeps the root node object and re-reads it only when root_hash changes
+                if kept.get("hash") != t.root_hash:
+                    kept["hash"], kept["node"] = t.root_hash, cut(lambda: t.root_node)
+                res = cut(t.traverse_from, kept["node"], p, expect=(TraversedPartialPath,))
+                ctx.count("root_via_kept_root_node")
+            elif case.get("root_via") == "traverse_from":
                 # "from the root" spelled as traverse_from(root_node, prefix)
                 res = cut(lambda: t.traverse_from(t.root_node, p), expect=(TraversedPartialPath,))
                 ctx.count("root_via_traverse_from")
@@ -292,7 +299,7 @@ def gen_case(rnd, tier):
                             kind=rnd.choice(["adv", "adv", "fix3", "chain", "nibbly", "k32", "adv", "fix3", "chain", "nibbly", "k32", "k40"]))
     case["pseed"] = rnd.randrange(1 << 30)
     case["cache"] = bool(rnd.randrange(2))
-    case["root_via"] = rnd.choice(["traverse", "traverse", "traverse_from"])
+    case["root_via"] = rnd.choice(["traverse", "traverse", "traverse_from", "kept_root"])
     case["strategy"] = rnd.choice(STRATEGIES)
     pmut = rnd.choice([0, 0.1, 0.3, 0.6])
     muts = []
@@ -367,7 +374,7 @@ def small_scope(ctx):
                         if idx % ctx.nshards == ctx.shard:
                             yield {"prune": prune, "hist": hist, "pseed": idx, "cache": cache,
                                    "strategy": strategy, "muts": [[at, m] for at, m in muts],
-                                   "root_via": "traverse_from" if (idx // ctx.nshards) % 3 == 0 else "traverse"}
+                                   "root_via": ["traverse_from", "traverse", "kept_root", "traverse"][(idx // ctx.nshards) % 4]}
                         idx += 1
 
 
